@@ -45,6 +45,8 @@ type Decision struct {
 	Tag     string
 	Flip    bool // first alternative is the false side
 	AltModel map[*Term]*Term // model of the second alternative (already known feasible)
+	HasVal  bool   // concretisation decision: the value tried
+	Val     uint64
 	Lim     int // when >0: alternatives >= Lim were handed to other workers
 }
 
@@ -392,17 +394,31 @@ func (e *Exec) concretize(t *Term, cap int, what string) uint64 {
 		return u
 	}
 	for i := 0; i < cap; i++ {
-		// ask solver for a value
-		r := e.check(nil)
-		if r != "sat" {
-			e.fail(OutUnsupported, "concretize(%s): solver %s", what, r)
+		var v *Term
+		at := e.pos
+		if at < len(e.trail) && e.trail[at].HasVal {
+			// replay: the value tried at this decision is part of the trail (solver models are not
+			// reproducible across re-executions)
+			v = e.tt.BV(t.Sort.W, e.trail[at].Val)
+		} else {
+			r := e.check(nil)
+			if r != "sat" {
+				if os.Getenv("SYMGO_DEBUG") != "" {
+					os.WriteFile(fmt.Sprintf("/verif/.work/concretize-%d.smt2", os.Getpid()), []byte(e.solver.script(what+" "+t.SMT())), 0o644)
+				}
+				e.fail(OutUnsupported, "concretize(%s): solver %s", what, r)
+			}
+			vs, err := e.solver.Values([]*Term{t})
+			if err != nil {
+				e.fail(OutUnsupported, "concretize(%s): %v", what, err)
+			}
+			v = vs[0]
 		}
-		vs, err := e.solver.Values([]*Term{t})
-		if err != nil {
-			e.fail(OutUnsupported, "concretize(%s): %v", what, err)
+		taken := e.branch(e.tt.Eq(t, v))
+		if e.pos > at && at < len(e.trail) {
+			e.trail[at].HasVal, e.trail[at].Val = true, v.U
 		}
-		v := vs[0]
-		if e.branch(e.tt.Eq(t, v)) {
+		if taken {
 			return v.U
 		}
 	}
